@@ -81,12 +81,20 @@ Clone(g, h) ==
   /\ pend' = [pend EXCEPT ![h] = IF CloneCopiesFlag THEN pend[g] ELSE ClonePend]   \* ... the claim on its high half is not
   /\ UNCHANGED <<handed, dup, ntok>>
 
+(* Clone::clone_from(g, h): g is overwritten with a copy of h; whatever half g still owed is gone, *)
+(* and - as for clone - the claim on h's pending half stays with h                                  *)
+CloneFrom(g, h) ==
+  /\ g \in alive /\ h \in alive /\ g # h
+  /\ tok' = [tok EXCEPT ![g] = tok[h]]
+  /\ pend' = [pend EXCEPT ![g] = IF CloneCopiesFlag THEN pend[h] ELSE ClonePend]
+  /\ UNCHANGED <<alive, handed, dup, ntok>>
+
 Init == /\ alive = {CHOOSE g \in Inst : \A h \in Inst : g <= h}
         /\ tok = [g \in Inst |-> 0] /\ pend = [g \in Inst |-> FALSE]
         /\ handed = {} /\ dup = FALSE /\ ntok = 0
 Next == \E g \in Inst : \/ NextU32(g) \/ NextU64(g)
                         \/ \E n \in FillLens : Fill(g, n)
-                        \/ \E h \in Inst : Clone(g, h)
+                        \/ \E h \in Inst : Clone(g, h) \/ CloneFrom(g, h)
 Spec == Init /\ [][Next]_vars
 Bound == ntok <= MaxTok
 
